@@ -62,6 +62,8 @@ def scenarios(tier):
             out.append(dict(name=f"roundtrip-{name}-sub{'full' if sub is None else '_'.join(map(str, sub))}", fn="roundtrip", params=dict(fam=k, sub=sub, tier=tier), cost=10))
     for k in ((1, 2) if q else (1, 2, 4, 7)):
         out.append(dict(name=f"model-lonlat-{affine_family(tier)[k][0]}", fn="model_lonlat", params=dict(fam=k, tier=tier), cost=10))
+        if k == 1:
+            out.append(dict(name=f"model-lonlat-swimming-ibm-{affine_family(tier)[k][0]}", fn="model_lonlat", params=dict(fam=k, tier=tier, swim=True), cost=10))
     return out
 
 
@@ -91,6 +93,9 @@ def model_lonlat(W, p):
                       output=dict(filename=str(tmp / "out.nc"), output_period=DTs, instance_variables=ivars))
     cfg["grid"] = dict(module="ladim.ROMS", filename=str(tmp / "grid.nc"))
     cfg["ibm"] = dict()
+    if p.get("swim"):
+        # an IBM that asks the grid for lon/lat and then lets the particles swim (in-place update of the state arrays)
+        cfg["ibm"] = dict(module=str(PLUG / "pibm.py"), swim=W.real("swim", W.frac(1, 100), W.frac(1, 10)))
     # records may be spread over several files (numrec records each)
     R = W.idx(W.int("numrec", 0, 2))
     cfg["output"]["numrec"] = R
